@@ -46,6 +46,12 @@ pub fn adversarial(depths: &[usize]) -> Vec<(String, Fmt, Vec<u8>)> {
 		v.push((format!("msgpack.maps.{n}"), Fmt::Msgpack, cat(&[&rep(b"\x81\xa1a", n), b"\x01"])));
 		v.push((format!("msgpack.keynest.{n}"), Fmt::Msgpack, cat(&[&rep(b"\x81", n), b"\x01", &rep(b"\x01", n)])));
 		v.push((format!("msgpack.unclosed.{n}"), Fmt::Msgpack, rep(b"\x92", n)));
+		// the same nesting through headers wider than needed
+		v.push((format!("msgpack.array16.{n}"), Fmt::Msgpack, cat(&[&rep(b"\xdc\x00\x01", n), b"\x01"])));
+		v.push((format!("msgpack.array32.{n}"), Fmt::Msgpack, cat(&[&rep(b"\xdd\x00\x00\x00\x01", n), b"\x01"])));
+		v.push((format!("msgpack.map16.{n}"), Fmt::Msgpack, cat(&[&rep(b"\xde\x00\x01\xa1a", n), b"\x01"])));
+		v.push((format!("msgpack.map32.{n}"), Fmt::Msgpack, cat(&[&rep(b"\xdf\x00\x00\x00\x01\xa1a", n), b"\x01"])));
+		v.push((format!("msgpack.map32key.{n}"), Fmt::Msgpack, cat(&[&rep(b"\xdf\x00\x00\x00\x01", n), b"\x01", &rep(b"\x01", n)])));
 	}
 	// Huge declared lengths.
 	for (name, b) in [
@@ -57,6 +63,15 @@ pub fn adversarial(depths: &[usize]) -> Vec<(String, Fmt, Vec<u8>)> {
 		("array32_in_array", b"\x91\xdd\xff\xff\xff\xff\x01"),
 		("array16_max", b"\xdc\xff\xff\x01"),
 		("str16_trunc", b"\xda\xff\xff"),
+		("ext16_max", b"\xc8\xff\xff"),
+		("ext16_max_typed", b"\xc8\xff\xff\x01ab"),
+		("ext16_fffc", b"\xc8\xff\xfc\x01"),
+		("ext8_max", b"\xc7\xff\x01"),
+		("bin16_max", b"\xc5\xff\xff"),
+		("bin8_max", b"\xc4\xff"),
+		("str8_max", b"\xd9\xff"),
+		("ext32_small", b"\xc9\x00\x00\x00\x01\x05\x00"),
+		("ext_in_array", b"\x92\xc8\xff\xff\x01"),
 	] {
 		v.push((format!("msgpack.huge.{name}"), Fmt::Msgpack, b.to_vec()));
 	}
